@@ -2,10 +2,13 @@ from .common import COMMON_TB
 
 CFG = dict(
     coq=["Properties/C06.v", "Properties/C06Mt.v", "Properties/C06Containers.v", "Properties/C06Readers.v"],
-    areas=["lzmadec", "mt", "c04"],
+    areas=["lzmadec", "mt", "c04", "bcj", "bcj2"],
     level="proof",
     # c04's own oracle (content of damaged files) is C04's business; here only totality counts
-    oracle_filter={"c04": r"PANIC|TIMEOUT|RUNAWAY|panic|hang|terminat|endless|without bound|HARNESS"},
+    oracle_filter={"c04": r"PANIC|TIMEOUT|RUNAWAY|panic|hang|terminat|endless|without bound|HARNESS",
+                   # bcj / bcj2 belong to C11 (and C07): here only totality of the filter readers counts
+                   "bcj": r"PANIC|TIMEOUT|RUNAWAY|panic|hang|terminat|endless|without bound|HARNESS",
+                   "bcj2": r"PANIC|TIMEOUT|RUNAWAY|panic|hang|terminat|endless|without bound|HARNESS"},
     theorems_expected=["C06_decode_bit_never_panics", "C06_run_rc_total", "C06_window_rejects_far", "C06_decode_total", "C06_lzip_scan_total",
                        "C06_xz_decode_total", "C06_xz_decode_chain_total", "C06_xz_blockdec_shr", "C06_lzip_decode_total",
                        "C06_xz_index_alloc_refuted", "C06_growing_rest_needs_fuel",
